@@ -297,6 +297,19 @@ func (vc *VC) emitVariant(o *Obl, dir string, idx int, variant int) (string, int
 		for _, sk := range sks {
 			fmt.Fprintf(&b, "(declare-const %s Int)\n", sk)
 		}
+		{
+			// candidate witnesses put into the goal may name symbols outside the cone of influence: declare them
+			gs := map[string]bool{}
+			symbols(goal, gs)
+			for _, d := range vc.decls {
+				f := strings.Fields(d)
+				if len(f) >= 2 && gs[f[1]] && !need[f[1]] {
+					b.WriteString(d)
+					b.WriteByte('\n')
+					need[f[1]] = true
+				}
+			}
+		}
 		ctx0 := b.String()
 		hasCand := len(sks) > 0 || (len(o.Cands) > 0 && !strings.Contains(o.Goal, "(exists "))
 		for _, sr := range vc.searchRes {
@@ -435,8 +448,8 @@ func (vc *VC) emitVariant(o *Obl, dir string, idx int, variant int) (string, int
 						m := map[string]bool{}
 						symbols(c, m)
 						for sy := range m {
-							if !builtinSym(sy) && !pathSyms[sy] {
-								ok = false
+							if !builtinSym(sy) && (!pathSyms[sy] || !need[sy]) {
+								ok = false // not on the path, or not declared in this file (outside the cone of influence)
 							}
 						}
 						if ok && len(cand) < 16 {
@@ -523,6 +536,22 @@ func (vc *VC) emitVariant(o *Obl, dir string, idx int, variant int) (string, int
 					}
 					// quantifiers nested inside this one become instantiable once the outer variable is fixed
 					for _, q2 := range vc.quants {
+						// only quantifiers directly under this one: one that sits under a further quantifier (an exists, say)
+						// still has that quantifier's variable free
+						deeper := false
+						for _, q3 := range vc.quants {
+							if q3.BV != it.q.BV && q3 != q2 && strings.Contains(it.q.Inner, q3.Text) && strings.Contains(q3.Inner, q2.Text) {
+								deeper = true
+							}
+						}
+						for _, q3 := range vc.exQuants {
+							if strings.Contains(it.q.Inner, q3.Text) && strings.Contains(q3.Inner, q2.Text) {
+								deeper = true
+							}
+						}
+						if deeper {
+							continue
+						}
 						if q2.BV != it.q.BV && strings.Contains(it.q.Inner, q2.Text) {
 							work = append(work, item{quantRec{BV: q2.BV, More: q2.More, Text: substSym(q2.Text, it.q.BV, tp[0]), Inner: substSym(q2.Inner, it.q.BV, tp[0])}, it.depth + 1})
 						}
